@@ -4,7 +4,7 @@ from hypothesis import strategies as st
 
 from engine import lib, scen, xforms, zz9enc
 from engine.cmp import close
-from engine.oracle import Oracle
+from engine.oracle import Oracle, apparent_dims
 from engine.runner import SubCheck
 from props.c02 import _specs
 
@@ -26,7 +26,9 @@ ASSUMPTIONS = [
 ]
 
 SHAPES = [("cat", "cat")] * 4 + [("mr", "cat"), ("cat", "mr"), ("na", "cat"), ("na", "cat"),
-                                  ("cat_date", "cat"), ("na", "mr")]
+                                  ("cat_date", "cat"), ("na", "mr"),
+                                  # 3-D: the shares of every slice of one cube
+                                  ("cat", "cat", "cat"), ("mr", "cat", "cat")]
 
 
 @st.composite
@@ -66,10 +68,22 @@ def _cell_sum(orc, rs, cs):
 
 
 def judge_slice(case, rec):
+    """Every slice of the cube is judged against its own respondents (3-D: one slice per
+    table element)."""
     sv, q = case["survey"], case["query"]
-    part = lib.cube(zz9enc.encode(sv, q), case["transforms"]).partitions[0]
-    orc = Oracle(sv, q)
+    parts = lib.cube(zz9enc.encode(sv, q), case["transforms"]).partitions
     rec.event("shape=" + "x".join(case["shape"]))
+    dims = apparent_dims(sv, q)
+    tkeys = dims[0].keys if len(dims) == 3 and dims[0].kind != "numarr" else [None]
+    if len(tkeys) > 1:
+        rec.event("3-D: several slices")
+    for part, tkey in zip(parts, tkeys):
+        _judge_slice_part(case, rec, part, Oracle(sv, q, table_key=tkey))
+
+
+def _judge_slice_part(case, rec, part, orc):
+    sv, q = case["survey"], case["query"]
+    lib.warm(part, case.get("warmup"))
     rspecs, cspecs = _specs(part, orc, case)
     nr, nc = len(rspecs), len(cspecs)
     S = {}
